@@ -858,6 +858,77 @@ pub fn worker(a: &Args) -> i32 {
                 }
             }
         }
+        // the other axis of the same idea: ONE duplicate (or one near-duplicate, which is not one)
+        // among names of every byte length. Thresholds in duplicate detection, interning, inline
+        // buffers and bit masks sit at particular *lengths* (15/16, 22/23, 31/32, 63/64, 127/128,
+        // 255/256, 4096, 65535/65536 ...), which neither short exhaustive strings nor dictionary
+        // names ever reach.
+        "enum-lens" => {
+            let mut lens: Vec<usize> = (1..=130).collect();
+            if runs >= 1000 {
+                lens.extend(131..=300);
+                for b in [511usize, 512, 513, 1023, 1024, 1025, 2047, 2048, 2049, 4095, 4096, 4097, 8191, 8192, 8193, 16384, 32767, 32768, 65535, 65536, 65537] {
+                    lens.push(b);
+                }
+            }
+            // name i of exactly `len` bytes: a distinguishing head, then filler
+            let name = |i: usize, len: usize, filler: &str| -> String {
+                let mut s = String::new();
+                s.push((b'a' + (i % 26) as u8) as char);
+                while s.len() + filler.len() <= len {
+                    s.push_str(filler);
+                }
+                while s.len() < len {
+                    s.push('y');
+                }
+                s
+            };
+            let mut k = 0u64;
+            'outer: for &len in &lens {
+                for variant in 0..8u64 {
+                    k += 1;
+                    if k % workers != worker {
+                        continue;
+                    }
+                    let filler = if variant >= 6 { "\u{e9}" } else { "x" };
+                    let (a0, b0) = (name(0, len, filler), name(1, len, filler));
+                    // same head, different tail / middle (NOT duplicates of a0)
+                    let mut tail = a0.clone();
+                    if tail.pop().is_some() {
+                        while tail.len() < len.saturating_sub(1) {
+                            tail.push('y');
+                        }
+                        tail.push('z');
+                    }
+                    let mut mid: Vec<char> = a0.chars().collect();
+                    let m = mid.len() / 2;
+                    if m > 0 {
+                        mid[m] = if mid[m] == 'q' { 'r' } else { 'q' };
+                    }
+                    let mid: String = mid.into_iter().collect();
+                    let text = match variant {
+                        0 | 6 => format!("[c0]\n{a0}\n{b0}\n{a0}\n"),
+                        1 => format!("[c0]\n{a0}|{b0}\n[c1]\n{b0}2|{a0}\n"),
+                        2 | 7 => format!("[{a0}]\nk\n[{b0}]\n[{a0}]\n"),
+                        3 => format!("[c0]\n{a0}\n{tail}\n{mid}\n{b0}\n"),
+                        4 => format!("[{a0}]\n[{tail}]\nk\n[{mid}]\n"),
+                        // a name equal to a category name is not a duplicate
+                        _ => format!("[{a0}]\n{a0}|{b0}\n[{b0}]\n{tail}\n"),
+                    };
+                    let sc = AisleScenario { text, hash_seed: k, ops_a: vec![AisleOp::Lookup, AisleOp::Reparse], ops_b: vec![], other_text: None, ops_c: vec![], order: vec![] };
+                    let (viol, st) = execute(&sc);
+                    out.runs += 1;
+                    out.enumerated_dup_positions += 1;
+                    if out.samples.is_empty() && len == 5 && variant == 3 {
+                        out.samples.push(serde_json::json!({"name_bytes": len, "variant": variant, "scenario": &sc}));
+                    }
+                    absorb(&mut out, &sc, &st, &viol, a, None, &replay_dir, &format!("len-{len}-{variant}"));
+                    if out.violations.len() >= max_viol {
+                        break 'outer;
+                    }
+                }
+            }
+        }
         // every string over the alphabet up to --len symbols
         "exhaustive" => {
             let maxlen = a.u64("len", 6) as usize;
